@@ -11,7 +11,7 @@
 import json
 import random
 
-from harness import tlc, sk, tracecheck, multinet, store_drv, indep
+from harness import tlc, sk, tracecheck, multinet, store_drv, indep, hooktrace
 from harness.common import Check, seed, machinery_failure
 from checks.store import cb, tx, blk
 
@@ -295,6 +295,25 @@ def run(pid, tier, replay=None):
     for key, (parent, init, peers, batch, traces) in traces_by.items():
         judge(chk, traces, parent, init, peers, batch)
     chk.sample({"source": "randomized schedule", "universe": kind, "events": [[e["a"], e["n"], e["m"]] for e in traces[0]["events"][:15]]})
+    # ---- (e) the repository's own integration tests with the verification hooks on: real threads, real sockets.
+    #      Each node's event log (every handled sync message, every periodic step that acted) is validated locally against Net:
+    #      received messages are environment inputs, the node's state after each event must be what Net's handler produces.
+    sk.restore_cfg()
+    ids = hooktrace.chain_universe()
+    hook_info = []
+    for test in ("tests/networking/test_integration.py::test_ibd_integration", "tests/networking/test_integration.py::test_broadcast_transaction"):
+        rc, out, ev = hooktrace.run_test(test)
+        if rc != 0 or len(ev) < 10:
+            chk.notes.append("hooked run of %s not usable (pytest exit %s, %d events): %s" % (test, rc, len(ev), out[-200:].replace("\n", " ")))
+            continue
+        for (tr, parent, init, peers, info) in hooktrace.local_traces(ev, ids, tid0=tid + 1):
+            tid += 2
+            hook_info.append({"test": test.split("::")[1], "node": info["node"], "events": len(tr["events"]), "connections": len(info["connections"])})
+            judge(chk, [tr], parent, init, peers, 500)
+            chk.case(("hooked", test, info["node"]), nontrivial=True)
+    chk.extra["hooked_integration_tests"] = hook_info
+    if hook_info:
+        chk.sample({"source": "repository integration test under hooks (real threads and sockets)", "traces": hook_info})
     chk.extra["rule"] = ("schedule = sequence of deliveries (one framed message on one directed link), periodic steps with the chosen peer, clock jumps > 60 s and transaction "
                          "originations over 2-3 real nodes; complete behaviours of MC_Net (K=1) replayed and continued by fair rounds until two rounds change nothing; randomized "
                          "schedules on bigger universes (fork depth 10-17 beyond the dense locator range, side branch stored at the responder, 4-6 inventory batches, three nodes in "
